@@ -122,3 +122,78 @@ def declare_c32(E):
                    2: dict(inv=inner, variant="blocklen - count", havoc_ghosts=["hashed"], vars={"data": "union[bytes,int]"}),
                },
                returns="none", raises={"UnicodeDecodeError": "True", "struct.error": "True"}, modifies=["msg.packet.pos"])
+
+
+ALLOWED = ("(ghost('resp_type') == 101"
+           " or (ghost('resp_type') == 102 and (t == 3 or t == 11))"            # HANDLE for OPEN / OPENDIR
+           " or (ghost('resp_type') == 103 and t == 5)"                         # DATA for READ
+           " or (ghost('resp_type') == 104 and (t == 12 or t == 19 or t == 16))"  # NAME for READDIR / READLINK / REALPATH
+           " or (ghost('resp_type') == 105 and (t == 17 or t == 7 or t == 8))"  # ATTRS for STAT / LSTAT / FSTAT
+           " or (ghost('resp_type') == 201 and t == 200))")                     # EXTENDED_REPLY for EXTENDED
+
+
+def declare_c30(E):
+    from contracts import message
+    message.declare(E)
+    message.light_readers(E)
+    E.declare_ghost(resp_count="int", resp_type="int", resp_id="int")
+    E.declare_class("paramiko.sftp_server.SFTPServer", {"file_table": "opaque:FileTable", "folder_table": "opaque:FileTable",
+                                                        "server": "opaque:SFTPSI", "next_handle": "int"})
+    E.declare_class("paramiko.sftp_attr.SFTPAttributes", {})
+    ANY = {"Exception": "True"}
+    E.contract("FileTable.__contains__", argnames=["self", "k"], returns="bool")
+    E.contract("FileTable.__getitem__", argnames=["self", "k"], returns="opaque:Handle")
+    E.contract("FileTable.__delitem__", argnames=["self", "k"], returns="none")
+    for n, ret in (("close", "none"), ("read", "union[bytes,int]"), ("write", "int"), ("stat", "union[obj:SFTPAttributes,int]"),
+                   ("chattr", "int")):
+        E.contract("Handle." + n, argnames=["self", "a", "b"], returns=ret, raises=dict(ANY))
+    for n, ret in (("open", "opaque:HandleOrCode"), ("remove", "int"), ("rename", "int"), ("mkdir", "int"), ("rmdir", "int"),
+                   ("stat", "union[obj:SFTPAttributes,int]"), ("lstat", "union[obj:SFTPAttributes,int]"), ("chattr", "int"),
+                   ("readlink", "union[str,int]"), ("symlink", "int"), ("canonicalize", "str"), ("posix_rename", "int"),
+                   ("list_folder", "opaque:ListOrCode")):
+        E.contract("SFTPSI." + n, argnames=["self", "a", "b", "c"], returns=ret, raises=dict(ANY))
+    E.contract("paramiko.sftp_attr.SFTPAttributes._from_msg", returns="obj:SFTPAttributes", raises={"UnicodeDecodeError": "True"},
+               params={"msg": "obj:Message"}, modifies=["msg.packet.pos"],
+               ensures=["0 <= msg.packet.tell() and msg.packet.tell() <= len(msg.packet.getvalue())"])
+    E.contract(S + "_convert_pflags", returns="int", modifies=[])
+    E.inline("paramiko.sftp_attr.SFTPAttributes.__init__")
+
+    def responder(name, types, raises=None, **kw):
+        kinds = " if ".join([])  # (readability)
+        if len(types) == 1:
+            rt = str(types[0])
+        else:
+            rt = "(%d if fn('%s_ok', 'bool', request_number, ghost('resp_count')) else %d)" % (types[1], name, types[0])
+        E.contract(S + name, returns="none",
+                   ghost={"resp_count": "ghost('resp_count') + 1", "resp_type": rt, "resp_id": "request_number"},
+                   raises=raises if raises is not None else {"Exception": "True"}, modifies=[], **kw)
+    responder("_send_status", [101], raises={"Exception": "True"})      # e.g. struct.error for a code outside uint32
+    responder("_response", [0], raises={"Exception": "True"})
+    E.contracts[S + "_response"]["ghost"]["resp_type"] = "t"
+    responder("_send_handle_response", [101, 102])
+    responder("_open_folder", [101, 102])
+    responder("_read_folder", [101, 104])
+    responder("_check_file", [101, 201], raises={"UnicodeDecodeError": "True", "struct.error": "True"})
+    E.contract(S + "_process", params={"t": "u8", "request_number": "u32", "msg": "obj:Message"},
+               requires={"msg_pos": "0 <= msg.packet.tell() and msg.packet.tell() <= len(msg.packet.getvalue())"},
+               ensures={"exactly_one_response": "ghost('resp_count') == old(ghost('resp_count')) + 1",
+                        "same_request_id": "ghost('resp_id') == request_number",
+                        "response_type_valid_for_the_request": ALLOWED},
+               # an escaping exception must leave the request unanswered: start_subsystem then sends the one STATUS(FAILURE)
+               raises={"Exception": "ghost('resp_count') == old(ghost('resp_count'))"},
+               returns="none", modifies=None)
+
+
+def declare_c30_helpers(E):
+    """the responders themselves, against the packet actually handed to _send_packet"""
+    E.declare_ghost(resp_payload="bytes")
+    E.contract("paramiko.sftp.BaseSFTP._send_packet", params={"t": "int", "packet": "union[obj:Message,bytes]"}, returns="none",
+               ghost={"resp_count": "ghost('resp_count') + 1", "resp_type": "t",
+                      "resp_payload": "packet if isbytes(packet) else packet.packet.getvalue()"}, raises={}, modifies=[])
+    one = {"one_packet": "ghost('resp_count') == old(ghost('resp_count')) + 1",
+           "type_as_given": "ghost('resp_type') == t",
+           "carries_request_id_first": "ghost('resp_payload')[0:4] == pack32(request_number)"}
+    E.contract(S + "_response[status]", params={})   # placeholder names for variants (see props/C30)
+    E.contracts.pop(S + "_response[status]")
+    base = dict(ensures=one, returns="none", modifies=[], raises={"struct.error": "True"})
+    return base
